@@ -19,6 +19,8 @@ impl<K> BTreeSet<K> {
     #[verifier::external_body] pub fn is_subset(&self, o: &BTreeSet<K>) -> (r: bool) ensures r == self@.subset_of(o@) { unimplemented!() }
     #[verifier::external_body] pub fn clone(&self) -> (r: BTreeSet<K>) ensures r@ == self@ { unimplemented!() }
     #[verifier::external_body] pub fn extend<const N: usize>(&mut self, a: [K; N]) ensures final(self)@ == old(self)@.union(a@.to_set()) { unimplemented!() }
+    // kanidm's `btreeset![a, b, ..]` macro (server/lib/src/macros.rs: new + insert of each element) is redirected here (R3)
+    #[verifier::external_body] pub fn kvx_from_array<const N: usize>(a: [K; N]) -> (r: BTreeSet<K>) ensures r@ == a@.to_set() { unimplemented!() }
     // `a.extend(b.iter().cloned())` is redirected here (R3)
     #[verifier::external_body] pub fn kvx_extend_from(&mut self, o: &BTreeSet<K>) ensures final(self)@ == old(self)@.union(o@) { unimplemented!() }
     // `&a - &b` / `a.sub(&b)` (std::ops::Sub for &BTreeSet): set difference
@@ -32,6 +34,16 @@ pub struct KvxIntersection<K> { p: core::marker::PhantomData<K> }
 impl<K> KvxIntersection<K> {
     pub uninterp spec fn nonempty(&self) -> bool;
     #[verifier::external_body] pub fn next(&mut self) -> (r: Option<&K>) ensures r is Some == old(self).nonempty() { unimplemented!() }
+}
+// hashbrown::HashMap API subset, viewed as a finite map
+#[verifier::external_body]
+#[verifier::reject_recursive_types(K)]
+#[verifier::reject_recursive_types(V)]
+pub struct HashMap<K, V> { p: core::marker::PhantomData<(K, V)> }
+impl<K, V> View for HashMap<K, V> { type V = Map<K, V>; uninterp spec fn view(&self) -> Map<K, V>; }
+impl<K, V> HashMap<K, V> {
+    #[verifier::external_body] pub fn get(&self, k: &K) -> (r: Option<&V>)
+        ensures r is Some == self@.contains_key(*k), r is Some ==> *r->Some_0 == self@[*k] { unimplemented!() }
 }
 // ---- entry class names: the schema name of a class, as the String stored in the class attribute ----
 pub uninterp spec fn ec_str(ec: EntryClass) -> &'static str;
@@ -64,6 +76,9 @@ impl<V, S> Entry<V, S> {
     #[verifier::external_body] pub fn entry_match_no_index(&self, f: &Filter<FilterValidResolved>) -> (r: bool) ensures r == self.matches_filter(f) { unimplemented!() }
     #[verifier::external_body] pub fn get_display_id(&self) -> (r: String) { unimplemented!() }
     #[verifier::external_body] pub fn get_ava_single_refer(&self, a: Attribute) -> (r: Option<Uuid>) ensures r == self.refer(a) { unimplemented!() }
+    // get_ava_set(Class): the class value set, observed only through `contains(&PartialValue)` on iutf8 partial values
+    #[verifier::external_body] pub fn get_ava_set(&self, a: Attribute) -> (r: Option<&ValueSet>)
+        ensures a == Attribute::Class ==> (r is Some == self.classes() is Some) && (r is Some ==> r->Some_0.iutf8_view() == self.classes()->Some_0) { unimplemented!() }
     // `get_ava_set(Class).map(|c| c.contains(&X.into())).unwrap_or(false)` is redirected here (R3): dyn ValueSetT is outside the dialect
     #[verifier::external_body] pub fn kvx_has_class(&self, ec: EntryClass) -> (r: bool)
         ensures r == (self.classes() matches Some(c) && c.contains(ec_string(ec))) { unimplemented!() }
@@ -81,6 +96,21 @@ impl<T> core::ops::Deref for Arc<T> { type Target = T; fn deref(&self) -> (r: &T
 pub struct IdentUser { pub entry: Arc<EntrySealedCommitted> }
 pub struct Source { pub o: u8 }
 pub struct Limits { pub o: u8 }
+// dyn ValueSetT stand-in (only `contains` of an iutf8 partial value is used by the access code)
+#[verifier::external_body] pub struct ValueSet { p: u8 }
+pub enum PartialValue { Iutf8(String), Other(u64) }
+impl ValueSet {
+    pub uninterp spec fn iutf8_view(&self) -> Set<String>;
+    #[verifier::external_body] pub fn contains(&self, pv: &PartialValue) -> (r: bool)
+        ensures pv matches PartialValue::Iutf8(s) ==> r == self.iutf8_view().contains(*s) { unimplemented!() }
+}
+impl vstd::std_specs::convert::FromSpecImpl<EntryClass> for PartialValue {
+    open spec fn obeys_from_spec() -> bool { true }
+    open spec fn from_spec(v: EntryClass) -> PartialValue { PartialValue::Iutf8(ec_string(v)) }
+}
+impl From<EntryClass> for PartialValue {
+    #[verifier::external_body] fn from(v: EntryClass) -> (r: PartialValue) { unimplemented!() }
+}
 // ---- access control profiles (server/access/profiles.rs): the receiver/target conditions are the real enums; filters are opaque ----
 pub struct FilterValidResolved;
 #[verifier::external_body]
